@@ -1207,6 +1207,29 @@ func runHistCase(c *HistCase, prop string) (*caseOut, error) {
 						viol("C13", fmt.Sprintf("foreign file %s in the backup directory did not survive Rollback (%v)", planted[k], err))
 					}
 				}
+				if len(planted) > 0 && !swapped {
+					// … and foreign content keeps nothing else in the backup: what is left beyond the tree the
+					// transaction found there is the foreign entries and the directories leading to them
+					keep := map[string]bool{}
+					for k := 0; k+1 < len(planted); k += 2 {
+						for _, a := range chainOf(planted[k]) {
+							keep[a] = true
+						}
+					}
+					was := map[string]bool{}
+					for k := 0; k+6 < len(b0); k += 7 {
+						was[b0[k]] = true
+					}
+					var left []string
+					for k := 0; k+6 < len(b1); k += 7 {
+						if !was[b1[k]] && !keep[b1[k]] {
+							left = append(left, b1[k])
+						}
+					}
+					if len(left) > 0 {
+						viol("C13", fmt.Sprintf("foreign content in the backup (%v) kept Rollback from cleaning up copies elsewhere: %v are left behind", planted, left))
+					}
+				}
 				if rerr == nil && !foreignBackup {
 					if !dumpEqual(b0, b1) {
 						viol("C07", "backup tree differs after a successful Rollback: "+dumpDiff(b0, b1))
